@@ -415,4 +415,14 @@ def replaceChar (name : String) (site : Int) (c : Byte) (b : Bag) : Option (Bag 
       if b.rows.any (fun r => r.id == i && r.seq.length ≤ site.toNat) then none
       else some ({ b with rows := setInRow i site.toNat c b.rows }, false)
 
+/-- `align.RemoveGapSites(cutoff, ends)` = `RemoveCharacterSites([GAP], cutoff, ends, false, false, false,
+false)`: the C12 model on the rows as they are, the new sequences written back through the pointers and the
+cached length reduced by the number of removed sites (an alignment of length −1 is returned untouched).
+`none` = index panic: the counting loop reads every row at every site below the cached length, so a row
+shorter than that (possible only after an operation that reported an error) cannot be read. -/
+def removeGapSites (test : Nat → Nat → Bool) (ends : Bool) (b : Bag) : Option (Bag × CleanResult) :=
+  if b.rows.any (fun r => r.seq.length < b.length.toNat) then none else
+  let r := removeCharacterSites test (pairs b) b.length b.alphabet [GAP] ends false false false false
+  some ({ b with rows := withSeqs b.rows r.rows, length := r.length }, r)
+
 end Gv.Model
